@@ -45,7 +45,13 @@ class C(Check):
                 continue
             self.note_asserts(r)
             prog = [render(s) for s in st]
+            if r.status == 'timeout' and self.cov.get('timeouts-re-run-alone', 0) >= 8:
+                # the sequential re-runs are capped (each may take two minutes); further time-outs of this run stay undecided
+                self.count('timed-out (not re-run, inconclusive)')
+                self.inconclusive += 1
+                continue
             if r.status == 'timeout':
+                self.count('timeouts-re-run-alone')
                 r2, _ = run_one('asan', cid, st, timeout=120)
                 if r2 is None or r2.status == 'ok':
                     self.count('slow-under-load (finished when re-run alone)')
@@ -66,6 +72,11 @@ class C(Check):
                     viol(dict(clause='crash', kind='asan:stack-overflow', family='set-algebra-recursion'), dict(program=prog[:2] + ([prog[at]] if at >= 2 else []), crash=r.crash, config='asan'))
                     continue
                 viol(dict(clause='crash', kind=ck.get('kind'), frames=ck.get('frames', [])[:2]), dict(program=prog[:2] + ([prog[at]] if at >= 2 else []), crash=r.crash, config='asan'))
+                continue
+            if r.status == 'timeout' and any(('(%s ' % h) in prog[min(len(r.stmts), len(st) - 1)] or ('$' in prog[min(len(r.stmts), len(st) - 1)] and any(('(%s ' % h) in p_ for p_ in prog[:2])) for h in _workload.HEAVY if h != 'pow'):
+                # zeta / gamma-family functions of a large computed argument (Bernoulli numbers, factorials): cost grows with the argument - resource, not memory safety
+                self.count('too-expensive (size-sensitive function of a large argument)')
+                self.inconclusive += 1
                 continue
             if r.status == 'timeout':
                 at = min(len(r.stmts), len(st) - 1)
